@@ -215,6 +215,20 @@ fn run_receive(ctx: &RunCtx) -> RunOut {
         };
         entries.push((id, v));
     }
+    // one run in six: a long frame - 8 to 80 further entries with distinct unknown, extension or grease identifiers
+    // at drawn positions (RFC 9114 7.2.4.1 puts no bound on how many settings a peer may send; they are ignored one
+    // by one, and the known ones among them still take effect)
+    if draw(6) == 5 {
+        let extra = 8 + draw_usize(73);
+        let base = 0x4000 + draw(1000) as u64 * 131;
+        for k in 0..extra as u64 {
+            let id = if draw(3) == 0 { 0x21 + 0x1f * (1000 + base + k) } else { base + 37 * k + 10 };
+            let v = *pick(&[0u64, 1, 64, 16384, 1 << 30, DEFAULT_MAX]);
+            let pos = draw_usize(entries.len() + 1);
+            entries.insert(pos, (id, v));
+        }
+        obs::count("probe.settings_frame_with_many_unknown_entries");
+    }
     #[derive(Debug, PartialEq, Clone)]
     enum Dev {
         None,
@@ -562,7 +576,7 @@ impl Check for C13 {
     fn meta(&self) -> Meta {
         Meta {
             level: "exploration",
-            rule: "send: the full product of builder options in systematic order (client: 3 booleans x 11 sizes; server: 4 booleans x 11 x 11 sizes; sizes {0,1,63,64,16383,16384,2^30-1,2^30,2^62-1,2^62,u64::MAX}; 2024 configurations, run index mod 2024) each set up over SimQuic with a drawn write schedule (partial acceptance down to 1 byte, pends, scarce stream credit) and parsed by the reference SETTINGS parser; receive: SETTINGS payloads (0-6 entries over known, unknown, grease and maximal ids, boolean and boundary values, all varint forms, in drawn order, with at most one deviation: repeated known id, repeated unknown id, HTTP/2-reserved id, truncated entry) delivered under drawn chunkings after a drawn delay to both roles, in one run in four behind an idle or a grease unidirectional stream opened first; applied values read back through the settings accessors before (defaults) and after; server role, one run in two: the client also sends a request some turns after its SETTINGS, and if the SETTINGS frame had been delivered completely before the request was written the settings must be in effect when accept() hands the request out; client role, one run in two: a request whose field-section size is at or one above the advertised SETTINGS_MAX_FIELD_SECTION_SIZE (or above a tiny one) is in flight - send_request() waiting for stream credit - while the SETTINGS arrive, and must be refused or sent according to the advertised value once the credit comes; non-trivial = every run; distinct = distinct schedule signatures",
+            rule: "send: the full product of builder options in systematic order (client: 3 booleans x 11 sizes; server: 4 booleans x 11 x 11 sizes; sizes {0,1,63,64,16383,16384,2^30-1,2^30,2^62-1,2^62,u64::MAX}; 2024 configurations, run index mod 2024) each set up over SimQuic with a drawn write schedule (partial acceptance down to 1 byte, pends, scarce stream credit) and parsed by the reference SETTINGS parser; receive: SETTINGS payloads (0-6 entries over known, unknown, grease and maximal ids, boolean and boundary values, all varint forms, in drawn order, in one run in six with 8-80 further distinct unknown / grease entries at drawn positions - frames of up to about 1 KiB -, with at most one deviation: repeated known id, repeated unknown id, HTTP/2-reserved id, truncated entry) delivered under drawn chunkings after a drawn delay to both roles, in one run in four behind an idle or a grease unidirectional stream opened first; applied values read back through the settings accessors before (defaults) and after; server role, one run in two: the client also sends a request some turns after its SETTINGS, and if the SETTINGS frame had been delivered completely before the request was written the settings must be in effect when accept() hands the request out; client role, one run in two: a request whose field-section size is at or one above the advertised SETTINGS_MAX_FIELD_SECTION_SIZE (or above a tiny one) is in flight - send_request() waiting for stream credit - while the SETTINGS arrive, and must be refused or sent according to the advertised value once the credit comes; non-trivial = every run; distinct = distinct schedule signatures",
             real: &["h3 client/server builders, Config -> SETTINGS conversion and encoding, control stream setup", "SETTINGS decoding, validation and application (frame::Settings::decode, config::Settings::from, shared state)"],
             stub: &["QUIC transport (SimQuic)", "executor (simexec)", "peer (script, reference SETTINGS printer/parser)"],
             assumptions: &["a configured value that a varint cannot carry may be sent as 2^62-1 or refused by build() with an error, but must not panic", "a repeated unknown identifier may be ignored or rejected with H3_SETTINGS_ERROR"],
